@@ -451,6 +451,10 @@ func (l *Lab) Run(reqs []proto.Req, workers int, timeout time.Duration) []Outcom
 			var w *worker
 			defer func() { w.kill() }()
 			for i := range jobs {
+				if reqs[i].Cold && w != nil {
+					w.kill()
+					w = nil
+				}
 				if w == nil {
 					var err error
 					if w, err = l.startWorker(); err != nil {
@@ -494,6 +498,10 @@ func (l *Lab) Run(reqs []proto.Req, workers int, timeout time.Duration) []Outcom
 					if err := json.Unmarshal(r.line, &outs[i].Resp); err != nil {
 						outs[i].Died = "bad response: " + err.Error()
 					}
+					if reqs[i].Cold {
+						// give the race runtime a moment to flush its report, then retire the process
+						time.Sleep(20 * time.Millisecond)
+					}
 					if l.Race {
 						if s := w.stderr.String(); strings.Contains(s, "DATA RACE") {
 							outs[i].Race = raceRe.FindString(s)
@@ -505,6 +513,10 @@ func (l *Lab) Run(reqs []proto.Req, workers int, timeout time.Duration) []Outcom
 					}
 				case <-time.After(timeout):
 					outs[i].Hang = true
+					w.kill()
+					w = nil
+				}
+				if reqs[i].Cold && w != nil {
 					w.kill()
 					w = nil
 				}
